@@ -15,7 +15,7 @@
 //!                                              the posts; the posts are untouched.
 use crate::engine::*;
 use crate::gen::pick;
-use crate::session::{Outcome, Session};
+use crate::session::Outcome;
 use crate::term::{self, T};
 use dashu::integer::IBig;
 use proptest::prelude::*;
@@ -320,11 +320,11 @@ pub fn case_strategy() -> BoxedStrategy<Case> {
 // check
 
 pub struct Env {
-    pub s: Session,
+    pub p: crate::shared::pool::Pooled,
 }
 
 pub fn mk_env() -> Env {
-    Env { s: Session::new(&["clpb"]) }
+    Env { p: crate::shared::pool::Pooled::new(&["clpb"]) }
 }
 
 const LIMIT: u64 = 30_000_000;
@@ -465,6 +465,7 @@ fn label_set(sols: &[T], n: u8, extra: bool) -> Result<(u64, Vec<T>), String> {
 }
 
 pub fn check(env: &mut Env, c: &Case) -> Verdict {
+    env.p.begin_case();
     let n = c.nvars.clamp(1, MAXV);
     let total = 1u32 << n;
     let mut m0 = 0u64; // models of the posts
@@ -487,7 +488,7 @@ pub fn check(env: &mut Env, c: &Case) -> Verdict {
 
     // 1. sat + labeling
     let q1 = format!("{prefix}, sat({ft}), labeling({vs})");
-    let o1 = env.s.ask_lim(&q1, &vs, LIMIT);
+    let o1 = env.p.s().ask_lim(&q1, &vs, LIMIT);
     if let Some(v) = common(&o1, "labeling", &q1) {
         return v;
     }
@@ -513,7 +514,7 @@ pub fn check(env: &mut Env, c: &Case) -> Verdict {
 
     // 2. sat without labeling: success iff satisfiable, bindings + residual goals == models
     let q2 = format!("{prefix}, sat({ft}), copy_term({vs},{ws},Gs), findall({ws}, (maplist(call,Gs), labeling({ws})), L)");
-    let o2 = env.s.ask_lim(&q2, &format!("r({ws},Gs,L)"), LIMIT);
+    let o2 = env.p.s().ask_lim(&q2, &format!("r({ws},Gs,L)"), LIMIT);
     if let Some(v) = common(&o2, "residual", &q2) {
         return v;
     }
@@ -628,7 +629,7 @@ pub fn check(env: &mut Env, c: &Case) -> Verdict {
 
     // 3. taut/2 (decision only)
     let q3 = format!("{prefix}, taut({ft},T)");
-    let o3 = env.s.ask_lim(&q3, "T", LIMIT);
+    let o3 = env.p.s().ask_lim(&q3, "T", LIMIT);
     if let Some(v) = common(&o3, "taut", &q3) {
         return v;
     }
@@ -669,7 +670,7 @@ pub fn check(env: &mut Env, c: &Case) -> Verdict {
     }
     let expect_n = proj.len() as i64;
     let q4 = format!("{prefix}, sat_count({ft},N), labeling({vs})");
-    let o4 = env.s.ask_lim(&q4, &format!("N-{vs}"), LIMIT);
+    let o4 = env.p.s().ask_lim(&q4, &format!("N-{vs}"), LIMIT);
     if let Some(v) = common(&o4, "sat_count", &q4) {
         return v;
     }
@@ -700,7 +701,7 @@ pub fn check(env: &mut Env, c: &Case) -> Verdict {
     let guard = if fresh.is_empty() || c.raw { String::new() } else { format!("sat('+'([1,{}])), ", fresh.iter().map(|i| format!("V{i}")).collect::<Vec<_>>().join(",")) };
     if let Some(tv) = expect_t {
         let q5 = format!("{prefix}, {guard}taut({ft},T), labeling({vs})");
-        let o5 = env.s.ask_lim(&q5, &format!("T-{vs}"), LIMIT);
+        let o5 = env.p.s().ask_lim(&q5, &format!("T-{vs}"), LIMIT);
         if let Some(v) = common(&o5, "taut-label", &q5) {
             return v;
         }
